@@ -12,6 +12,7 @@ S  the property restated directly on the implementation's output:
      antisymmetry, relabelling covariance, gauge invariance."""
 from lib import *  # noqa
 import gen
+import argforms as AF
 from koala.lattice import Lattice, permute_vertices
 from koala import chern_number as cn
 from koala import example_graphs as eg
@@ -32,6 +33,22 @@ ASSUMPTIONS = ["P is a Hermitian projector (P^* = P, P P = P); a, b real (positi
 
 FOURPI = 4 * math.pi
 TOL = 1e-9
+
+
+# ------------------------------------------------------------------ argument forms (argforms.py)
+# projector: np.ndarray -- complex128 in C / Fortran order, strided, read-only; and, ONLY when the entries are exactly representable
+# there (zero / identity / real dyadic projectors), complex64, float64, float32 or an integer array.  crosshair_position:
+# np.ndarray in the type hint, used as position[0], position[1]: array / list / tuple, float32 or integers when exact.
+# The form is chosen from the values (replayable); the model and the restatements get the values.
+AF_PROJ = ["complex128", "complex128+F", "complex128+strided", "complex128+readonly", "complex128+F+readonly",
+           "complex64", "complex64+F", "float64", "float64+F", "float32", "int64", "int8+F"]
+AF_CROSS = ["float64", "float64+list", "float64+tuple", "float64+readonly", "float64+strided", "float32", "float32+list", "int64", "int64+list", "int64+tuple"]
+
+
+def arg_forms(res, arg, values, *key):
+    if arg == "projector":
+        return AF.choose(res, "projector", values, AF_PROJ, *key, base=np.complex128)
+    return AF.choose(res, "crosshair_position", values, AF_CROSS, *key, base=np.float64)
 
 
 # ------------------------------------------------------------------ exact Gaussian rationals
@@ -264,13 +281,17 @@ def eval_exact(ctx, cases, label):
             if what == "chern":
                 model = [Fraction(n, D**3 * S * S) for n in nums]
                 spec = exact_marker(P, fx, fy)
-                impl = np.asarray(cn.chern_marker(lat, Pf.copy()))
+                Pa = arg_forms(res, "projector", Pf, "chern")
+                impl = np.asarray(cn.chern_marker(lat, Pa))
             else:
                 model = [Fraction(n, D**3) for n in nums]
                 ax = [Fraction(int(x < Fraction(ch[0]))) for x in fx]
                 ay = [Fraction(int(y < Fraction(ch[1]))) for y in fy]
                 spec = exact_marker(P, ax, ay)
-                impl = np.asarray(cn.crosshair_marker(lat, Pf.copy(), np.array(ch)))
+                Pa = arg_forms(res, "projector", Pf, ch)
+                impl = np.asarray(cn.crosshair_marker(lat, Pa, arg_forms(res, "crosshair", ch, V, c["rank"])))
+            if not np.array_equal(Pa, Pf):
+                res.violation("marker-modifies-projector", f"{what}: the projector passed in was modified", case)
             scale = 1.0 + max(abs(float(m)) for m in spec)
             tol = TOL * scale
             res.traces += 1
@@ -447,10 +468,10 @@ def eval_numeric(ctx, cases, label):
         for what, ch in calls:
             case = dict(c, what=what, crosshair=ch)
             if ch is None:
-                f = lambda L, Q, sw=False: np.asarray(cn.chern_marker(L, Q))
+                f = lambda L, Q, sw=False: np.asarray(cn.chern_marker(L, arg_forms(res, "projector", Q, "chern", sw)))
                 a, b = x, y
             else:
-                f = lambda L, Q, sw=False, ch=ch: np.asarray(cn.crosshair_marker(L, Q, np.array(ch[::-1] if sw else ch)))
+                f = lambda L, Q, sw=False, ch=ch: np.asarray(cn.crosshair_marker(L, arg_forms(res, "projector", Q, ch, sw), arg_forms(res, "crosshair", ch[::-1] if sw else ch, V, sw)))
                 a, b = 1.0 * (x < ch[0]), 1.0 * (y < ch[1])
             m = f(lat, P.copy())
             tol = FOURPI * TOL * max(V, 1) * (1 + np.max(np.abs(a), initial=0) * np.max(np.abs(b), initial=0))
